@@ -23,7 +23,8 @@ ASSUMPTIONS = [
     "h1 is compared modulo the NUL padding of its 16-byte field",
 ]
 REQUIRED = {"ukv.op": 2000, "ukv.failing-op": 200, "ukv.rawscan": 200, "ukv.reopen-stale": 50,
-            "coll.session": 200, "coll.in-session-read": 200, "exh.sequences": 1000}
+            "coll.session": 200, "coll.in-session-read": 200, "exh.sequences": 1000,
+            "rejected.cases": 100}
 CHUNK_TIMEOUT = 900
 TECHNIQUE = "runtime monitoring: reference map model stepped beside real UKVFile/Collection handles + independent raw-file scan"
 LEVEL_TEXT = ("Held on the histories produced: the real UKVFile / Collection objects are driven through exhaustive short and "
@@ -45,6 +46,8 @@ def plan(tier, seed):
     nrand = 48 if tier == "quick" else 320
     for i in range(nrand):
         specs.append({"kind": "rand", "chunk": i, "n": 12 if tier == "quick" else 30})
+    for i in range(8 if tier == "quick" else 32):
+        specs.append({"kind": "rejected", "chunk": i, "n": 30 if tier == "quick" else 100})
     ncoll = 48 if tier == "quick" else 320
     for i in range(ncoll):
         specs.append({"kind": "coll", "chunk": i, "n": 12 if tier == "quick" else 30})
@@ -64,6 +67,8 @@ def exh_alphabet():
 
 
 def run_chunk(spec, ctx):
+    if spec["kind"] == "rejected":
+        return run_coll_rejected(spec, ctx)
     if spec["kind"] == "exh":
         run_exhaustive(spec, ctx)
     elif spec["kind"] == "rand":
@@ -555,3 +560,96 @@ def run_coll(spec, ctx):
             path.unlink()
         except OSError:
             pass
+
+
+# ------------------------------------------------------------------------------------------------
+# a record the file rejects sits in the MIDDLE of a buffered collection's write queue
+
+def run_coll_rejected(spec, ctx):
+    """The user catches the error and carries on; the session (or the next one) completes.  Every record whose put was
+    not the rejected one must then be in the file: a failing put leaves everything else as it was."""
+    from molli.storage import Collection, UkvCollectionBackend
+    from vmon.models.kvmap import scan, ScanError
+
+    for j in range(spec["n"]):
+        case = ("rejected", spec["chunk"], j)
+        if not ctx.want(case):
+            continue
+        rng = ctx.rng(*case)
+        path = ctx.tmp / f"rej{j}.ukv"
+        bufsize = rng.choice([64, 300, 5000, 10**6])
+        col = Collection(path, UkvCollectionBackend, readonly=False, overwrite=True, bufsize=bufsize)
+        want = {}
+        with col.writing():
+            for i in range(3):
+                col[f"k{i}"] = f"old-{i}".encode() * 4
+                want[f"k{i}"] = f"old-{i}".encode() * 4
+        bad_kind = rng.choice(["duplicate", "oversize-key"])
+        n_before, n_after = rng.randrange(0, 4), rng.randrange(1, 5)
+        plan = [("ok", f"a{i}") for i in range(n_before)] + [("bad", "k1" if bad_kind == "duplicate" else "K" * 256)] + \
+               [("ok", f"b{i}") for i in range(n_after)]
+        explicit_flush = rng.random() < 0.4
+        errors = []
+        hist = [("bufsize", bufsize), ("bad", bad_kind, "at", n_before)]
+        session_error = None
+        try:
+            with col.writing():
+                for kind, k in plan:
+                    val = rng.randbytes(rng.choice([0, 5, 40, 200]))
+                    if kind == "ok":
+                        want[k] = val
+                    try:
+                        col[k] = val if kind == "ok" else b"rejected-value"
+                    except Exception as e:  # noqa   (the user catches the error and carries on)
+                        errors.append(type(e).__name__)
+                if explicit_flush:
+                    try:
+                        col.flush()
+                    except Exception as e:  # noqa
+                        errors.append(type(e).__name__)
+                want["tail"] = b"T"
+                try:
+                    col["tail"] = b"T"
+                except Exception as e:  # noqa
+                    errors.append(type(e).__name__)
+        except Exception as e:  # noqa   (the rejected record was still queued at session exit)
+            session_error = e
+            errors.append(type(e).__name__)
+        # whatever is still queued goes out with the next session of this handle; that one must complete
+        try:
+            with col.writing():
+                pass
+        except Exception as e:  # noqa
+            try:
+                with col.writing():
+                    pass
+            except Exception as e2:  # noqa
+                ctx.violation("rejected:handle-cannot-complete-a-session-any-more", case=case, hist=hist, err=repr(e2)[:200])
+                continue
+        ctx.count("rejected.cases")
+        ctx.case(case, dkey=(bufsize, bad_kind, n_before, n_after, explicit_flush), nontrivial=True,
+                 sample={"bufsize": bufsize, "rejected": bad_kind, "queued_before": n_before, "queued_after": n_after,
+                         "errors_seen_by_user": errors})
+        if not errors:
+            ctx.violation(f"rejected:{bad_kind}:accepted-silently", case=case, hist=hist)
+        try:
+            _, _, _, recs, _ = scan(path.read_bytes())
+        except ScanError as e:
+            ctx.violation("rejected:file-not-a-clean-record-sequence", case=case, hist=hist, err=str(e))
+            continue
+        got = {k.decode(): v for k, v, _ in recs}
+        lost = sorted(k for k in want if k not in got)
+        if lost:
+            where = "queued-behind-the-rejected-record" if any(k.startswith("b") or k == "tail" for k in lost) else "queued-before"
+            ctx.violation(f"rejected:{bad_kind}:accepted-records-lost:{where}", case=case, hist=hist, lost=lost, errors=errors)
+            continue
+        wrong = sorted(k for k in want if got[k] != want[k])
+        if wrong:
+            ctx.violation(f"rejected:{bad_kind}:record-altered", case=case, hist=hist, keys=wrong)
+        extra = sorted(set(got) - set(want))
+        if extra:
+            ctx.violation(f"rejected:{bad_kind}:rejected-record-stored-anyway", case=case, hist=hist, extra=[len(x) for x in extra])
+        fresh = Collection(path, UkvCollectionBackend, readonly=True)
+        with fresh.reading():
+            if set(fresh.keys()) != set(want):
+                ctx.violation(f"rejected:{bad_kind}:fresh-reader-lists-other-keys", case=case, hist=hist)
